@@ -1284,6 +1284,19 @@ func c8GenDupToken(rng *Rng, variant int) []c8Op {
 		b.cancel(a, 69) // removes c's entry
 		b.note(tok, 11, 0)
 		b.cancel(c, 69)
+	case 5: // second registration with a token in use is refused; the first one stays registered and keeps receiving
+		b.reg(tok, false)
+		b.note(tok, 1, 0)
+		b.reg(tok, false)
+		b.note(tok, 2, 0)
+		b.note(tok, 3, 0)
+	case 6: // the same, the refused attempt comes while notifications are in flight and is repeated
+		b.reg(tok, false)
+		b.note(tok, 7, 0)
+		b.note(tok, 8, 0)
+		b.reg(tok, false)
+		b.reg(tok, false)
+		b.note(tok, 9, 0)
 	default: // empty token
 		b.reg(nil, false)
 		b.raw(nil, 69, true, c8Enc(1, 0), 0)
@@ -1466,7 +1479,7 @@ func runC08(a runArgs) error {
 			all(c8GenCancelAt(rng.Fork(), pos, code, pos%2 == 1), "cancel-at-every-position")
 		}
 	}
-	for v := 0; v < 5; v++ {
+	for v := 0; v < 7; v++ {
 		all(c8GenDupToken(rng.Fork(), v), "same-token")
 	}
 	for v := 0; v < 3; v++ {
